@@ -220,17 +220,17 @@ def gen_lexeme(rnd):
     if r < 0.955:
         head = rnd.choice(["pragma", "#pragma"])
         w = rnd.choice([" ", "\t", " ", "\r", "\x0c"])
-        body = "".join(rnd.choice("abc xyz019_+-*/;.#@$\"'\tπ") for _ in range(rnd.randint(0, 12)))
+        body = "".join(rnd.choice("abc xyz019_+-*/;.#@$\"'\tπ\0\x01\x7f") for _ in range(rnd.randint(0, 12)))
         return {"cls": "pragma", "text": head + w + body, "kind": "PRAGMA"}
     if r < 0.98:
         c0 = rnd.choice(ASCII_LETTERS + "_" + "".join(ID_START_EXTRA))
-        body = "".join(rnd.choice("abc xyz019_+-*/;.#@$\"'\t") for _ in range(rnd.randint(0, 12)))
+        body = "".join(rnd.choice("abc xyz019_+-*/;.#@$\"'\t\0\x01\x7f") for _ in range(rnd.randint(0, 12)))
         return {"cls": "annotation", "text": "@" + c0 + body, "kind": "ANNOTATION"}
     return {"cls": "dim", "text": "#dim", "kind": "DIM_KW"}
 
 
 def gen_version(rnd):
-    ws = "".join(rnd.choice([" ", " ", "\t", "\n"]) for _ in range(rnd.randint(1, 3)))
+    ws = "".join(rnd.choice([" ", " ", "\t", "\n", "\r\n", "\x0c", "\u0085", "\u2028", "\u200e", "\u2029"]) for _ in range(rnd.randint(1, 3)))
     v = "".join(rnd.choice(DIGITS) for _ in range(rnd.randint(1, 2)))
     if rnd.random() < 0.7:
         v += "." + "".join(rnd.choice(DIGITS) for _ in range(rnd.randint(1, 2)))
@@ -248,18 +248,29 @@ def gen_ws(rnd, must_start_nl=False):
     return s
 
 
+def _body(rnd, alpha, n):
+    """comment text that neither opens a nested comment nor closes one: may START with `/` (`/*/ x */` is one comment:
+    the `*` of the opener is not the `*` of a closer) and contain `*` and `/` apart; may contain U+0000 and other
+    control characters (they are ordinary characters inside a comment)"""
+    for _ in range(20):
+        b = "".join(rnd.choice(alpha) for _ in range(n))
+        if "/*" not in b and "*/" not in b and not b.endswith("/") and not b.endswith("*"):
+            return b
+    return ""
+
+
 def gen_block(rnd, depth=0):
-    alpha = "abc xyz01_+-;.#@$\"'\n\tπ"
-    s = "/*" + "".join(rnd.choice(alpha) for _ in range(rnd.randint(0, 6)))
+    alpha = "abc xyz01_+-;.#@$\"'\n\tπ" + "//**" + "\0\x01\x7f"
+    s = "/*" + _body(rnd, alpha, rnd.randint(0, 6))
     if depth < 2 and rnd.random() < 0.3:
-        s += gen_block(rnd, depth + 1) + "".join(rnd.choice(alpha) for _ in range(rnd.randint(0, 4)))
+        s += gen_block(rnd, depth + 1) + _body(rnd, alpha, rnd.randint(0, 4))
     if rnd.random() < 0.2:
         s += "*" * rnd.randint(1, 2) + " "     # stars that do not close
     return s + "*/"
 
 
 def gen_line(rnd):
-    return "//" + "".join(rnd.choice("abc xyz01_+-*/;.#@$\"'\t\rπ") for _ in range(rnd.randint(0, 10)))
+    return "//" + "".join(rnd.choice("abc xyz01_+-*/;.#@$\"'\t\rπ/!\0\x01\x7f") for _ in range(rnd.randint(0, 10)))
 
 
 def trivia_ok(items, rest):
